@@ -24,9 +24,9 @@ fn lim() -> Limits {
 
 /// The harness's own reader must agree with the layout description (guards the oracle).
 pub fn self_check(b: &Built) -> Result<(), Fail> {
-    let ar = reader::parse(&b.bytes, &lim()).map_err(|r| Fail::new("C03/harness", format!("spec reader rejects the spec writer's output: {} {}", r.tag, r.msg)))?;
+    let ar = reader::parse(&b.bytes, &lim()).map_err(|r| Fail::new("C03/INFRA/harness-self-check", format!("spec reader rejects the spec writer's output: {} {}", r.tag, r.msg)))?;
     let got: BTreeMap<u64, (u64, u32)> = ar.tiles.iter().map(|(k, (o, l))| (*k, (b.header.data_off + o, *l))).collect();
-    ensure!(got == b.expected, "C03/harness", "spec reader and spec writer disagree about the addressed tiles");
+    ensure!(got == b.expected, "C03/INFRA/harness-self-check", "spec reader and spec writer disagree about the addressed tiles");
     Ok(())
 }
 
@@ -189,7 +189,7 @@ pub struct Fixture {
 }
 
 fn check_fixture(fx: &Fixture) -> CaseResult {
-    let bytes = std::fs::read(&fx.path).map_err(|e| Fail::new("C03/harness", format!("cannot read fixture {}: {e}", fx.path)))?;
+    let bytes = std::fs::read(&fx.path).map_err(|e| Fail::new("C03/INFRA/fixture", format!("cannot read fixture {}: {e}", fx.path)))?;
     let h = crate::spec::SHeader::decode(&bytes).map_err(|e| Fail::new("C03/harness", e))?;
     // fixture 3 ("without_data") declares a tile-data section that is not in the file: only the
     // directory mapping is compared there.
